@@ -380,6 +380,13 @@ def rule_parameter_fields(check, rule):
             by_main = mainp is not None and ((isinstance(v, ast.IfExp) and mainp in norm(v.test)) or
                                              dominated_by(fi, st_, lambda t, pol: mainp in norm(t)))
             makes_arg = any(isinstance(c, ast.Call) and norm(c.func) == 'Arg' for c in ast.walk(v))
+            if isinstance(v, ast.IfExp) and mainp is not None and mainp in norm(v.test):
+                # the arm taken for the examined function itself makes the Arg, the other one does not
+                neg = isinstance(v.test, ast.UnaryOp) and isinstance(v.test.op, ast.Not)
+                main_arm, nested_arm = (v.orelse, v.body) if neg else (v.body, v.orelse)
+                if any(isinstance(c, ast.Call) and norm(c.func) == 'Arg' for c in ast.walk(nested_arm)) or not any(
+                        isinstance(c, ast.Call) and norm(c.func) == 'Arg' for c in ast.walk(main_arm)):
+                    by_main = False
             if makes_arg and not by_main:
                 check.violation(rule, site_of(fi, st_), 'parameters in arguments.%s are entered as known arguments (Arg) also for a nested function: a nested '
                                 'parameter spelled like a known argument of the examined function is resolved to that argument\'s value'
@@ -515,7 +522,11 @@ def rule_evaluation_order(check, rule):
         visits = [c_ for c_ in ast.walk(h.node) if isinstance(c_, ast.Call) and isinstance(c_.func, ast.Attribute) and c_.func.attr in ('visit', 'generic_visit')]
         early = [c_ for c_ in visits if marks and c_.lineno < min(m_.lineno for m_ in marks)
                  and not (c_.args and norm(c_.args[0]).endswith('.iter'))]
-        if twice and (dels or trunc) and early:
+        whole_c = [t_ for d_ in ast.walk(h.node) if isinstance(d_, ast.Delete) for t_ in d_.targets if isinstance(t_, ast.Attribute)]
+        if whole_c:
+            check.violation(rule, site_of(h, whole_c[0]), 'visit_%s deletes the attribute %s itself instead of truncating the list: the next use of it raises '
+                            'AttributeError' % (cname, norm(whole_c[0])), key=key, witness='any function with a comprehension')
+        elif twice and (dels or trunc) and early:
             # (D40b) what is visited before the mark is taken survives the discard and is visited again: recorded twice
             check.violation(rule, site_of(h, early[0]), 'visit_%s visits %s before it notes where the recorded calls end, and again in the second traversal: a '
                             'forwarding call there (a condition of the comprehension) is recorded twice' % (cname, norm(early[0].args[0]) if early[0].args else '?'),
@@ -573,18 +584,52 @@ def rule_evaluation_order(check, rule):
 
 
 def _visit_order(fi):
-    """order in which a handler mentions node.<field> in visit calls"""
-    nodep = fi.params()[0][1] if len(fi.params()[0]) > 1 else None
+    """order in which a handler *visits* node.<field>: the field is named in the argument of a visit call, or in the iterable of a loop
+    whose body visits what it iterates over (a loop emptied of its visit does not count)"""
+    pos = fi.params()[0]
+    selfn = pos[0] if pos else None
+    nodep = pos[1] if len(pos) > 1 else None
     order = []
-    for n in ast.walk(fi.node):
-        pass
-    class V(ast.NodeVisitor):
-        def visit_Attribute(self, n):
-            if isinstance(n.value, ast.Name) and n.value.id == nodep:
-                order.append(n.attr)
-            self.generic_visit(n)
-    for stmt in fi.main_body:
-        V().visit(stmt)
+
+    def fields_in(expr):
+        return [n.attr for n in ast.walk(expr) if isinstance(n, ast.Attribute) and isinstance(n.value, ast.Name) and n.value.id == nodep]
+
+    def is_visit(c):
+        return isinstance(c, ast.Call) and isinstance(c.func, ast.Attribute) and isinstance(c.func.value, ast.Name) and c.func.value.id == selfn \
+            and c.func.attr in ('visit', 'generic_visit')
+
+    def walk(stmts, bound):
+        for st in stmts:
+            if isinstance(st, ast.For):
+                names = set(n.id for n in ast.walk(st.target) if isinstance(n, ast.Name))
+                fs = fields_in(st.iter)
+                inner_bound = dict(bound)
+                for nm in names:
+                    inner_bound[nm] = fs or [f for src in (n.id for n in ast.walk(st.iter) if isinstance(n, ast.Name)) for f in bound.get(src, [])]
+                walk(st.body, inner_bound)
+                walk(st.orelse, bound)
+                continue
+            if isinstance(st, (ast.If, ast.While)):
+                walk(st.body, bound)
+                walk(st.orelse, bound)
+                continue
+            if isinstance(st, ast.Try):
+                for blk in [st.body, st.orelse, st.finalbody] + [h.body for h in st.handlers]:
+                    walk(blk, bound)
+                continue
+            if isinstance(st, (ast.With, ast.AsyncWith)):
+                walk(st.body, bound)
+                continue
+            for c in ast.walk(st):
+                if is_visit(c) and c.args:
+                    a = c.args[0]
+                    if c.func.attr == 'generic_visit' and isinstance(a, ast.Name) and a.id == nodep:
+                        order.extend(getattr(fi, '_generic_fields', []) or ['*'])
+                    order.extend(fields_in(a))
+                    for n in ast.walk(a):
+                        if isinstance(n, ast.Name) and n.id in bound:
+                            order.extend(bound[n.id])
+    walk(fi.main_body, {})
     return order
 
 
